@@ -529,7 +529,10 @@ Definition ab_rows (n : nat) (l : list bool) : list (option nat) :=
 (* the kernels for (mask, index vector) and (index vector, mask) exist for f64 only *)
 Definition mixed_ok (k : string) : bool := String.eqb k "f64".
 
-Definition mech_pos2 (k : string) (r c : nat) (ci cj : comp) : option (list (option nat)) :=
+(* fx = false: the tree as it is.  fx = true: with the four small repairs of /verif/proposed/C04-*.diff
+   (op-assign through a scalar index uses the op kernels, incl. i128; x[mask,:] = v addresses the mask's
+   rows; x[vec,mask] = v uses the index values; x[vec,:] /= v divides the addressed rows only). *)
+Definition mech_pos2 (fx : bool) (k : string) (r c : nat) (ci cj : comp) : option (list (option nat)) :=
   match ci, cj with
   | CBad, _ => None
   | _, CBad => None
@@ -540,9 +543,11 @@ Definition mech_pos2 (k : string) (r c : nat) (ci cj : comp) : option (list (opt
   | CB l, CS w => Some (match chk c w with
                         | None => [None]
                         | Some cc => col_outer r (dim_attempts r (CB l)) [Some cc] end)
-  | CU l, CB m => if mixed_ok k then Some (row_outer r (ub_rows r 0 l) (dim_attempts c (CB m))) else None
+  | CU l, CB m => if mixed_ok k
+                  then Some (row_outer r (if fx then dim_attempts r (CU l) else ub_rows r 0 l) (dim_attempts c (CB m)))
+                  else None
   | CB l, CU m => if mixed_ok k then Some (row_outer r (dim_attempts r (CB l)) (dim_attempts c (CU m))) else None
-  | CB l, CA => Some (col_outer r (ab_rows r l) (dim_attempts c CA))
+  | CB l, CA => Some (col_outer r (if fx then dim_attempts r (CB l) else ab_rows r l) (dim_attempts c CA))
   | CU l, CA => if String.eqb k "i128" then None                      (* impl_set_range_all_arms: no i128 arm *)
                 else Some (col_outer r (dim_attempts r (CU l)) (dim_attempts c CA))
   | CA, cj => Some (col_outer r (dim_attempts r CA) (dim_attempts c cj))
@@ -556,7 +561,7 @@ Definition single_mask (i : ixc) : option bool := match i with IM [b] => Some b 
 Definition single_vec_scalar (i j : ixc) : option (Z * Z) :=
   match i, j with IV [z], IS w => Some (z, w) | _, _ => None end.
 
-Definition mech_positions (k : string) (r c : nat) (t : target) : option (list (option nat)) :=
+Definition mech_positions (fx : bool) (k : string) (r c : nat) (t : target) : option (list (option nat)) :=
   match t with
   | TWhole => Some (map Some (seq 0 (r * c)))
   | T1 i =>
@@ -567,7 +572,7 @@ Definition mech_positions (k : string) (r c : nat) (t : target) : option (list (
   | T2 i j =>
       match single_vec_scalar i j with
       | Some (z, w) => Some [comb r (chk r z) (chk c w)]
-      | None => mech_pos2 k r c (comp_of i) (comp_of j)
+      | None => mech_pos2 fx k r c (comp_of i) (comp_of j)
       end
   end.
 
@@ -584,7 +589,7 @@ Definition refused (d : list (option sx)) : option (bool * list (option sx)) := 
 
 (* op-assign kernels exist for `x[vector|range] op= ..`, `x[vector|range,:] op= scalar` and `x op= ..`,
    and not for i128 *)
-Definition op_kind_ok (k : string) : bool := andb (is_numeric k) (negb (String.eqb k "i128")).
+Definition op_kind_ok (fx : bool) (k : string) : bool := andb (is_numeric k) (orb fx (negb (String.eqb k "i128"))).
 
 Definition runm (g : option sx -> sx -> option (option sx)) (ats : list (option nat * option sx)) (d : list (option sx))
   : option (bool * list (option sx)) := Some (run_attempts g ats d).
@@ -592,90 +597,99 @@ Definition runm (g : option sx -> sx -> option (option sx)) (ats : list (option 
 Definition x_is_row (x : mat sx) : bool := andb (Nat.eqb (mrows x) 1) (Nat.leb 2 (mcols x)).
 Definition x_is_col (x : mat sx) : bool := andb (Nat.eqb (mcols x) 1) (Nat.leb 2 (mrows x)).
 
-Definition mech_step (k : string) (x : mat sx) (s : stmt) : option (bool * list (option sx)) :=
+Definition is_all (c : ixc) : bool := match c with IAll => true | _ => false end.
+Definition is_scalar_ix (c : ixc) : bool := match c with IS _ => true | _ => false end.
+Definition is_div (o : aop) : bool := match o with ODiv => true | _ => false end.
+Definition mres : Type := option (bool * list (option sx)).
+
+(* x[...] = scalar *)
+Definition mech_set_scalar (fx : bool) (k : string) (r c : nat) (t : target) (e : sx) (d : list (option sx)) : mres :=
+  match t with
+  | TWhole => None
+  | _ => match mech_positions fx k r c t with
+         | Some ps => runm m_set (with_src e ps) d
+         | None => refused d
+         end
+  end.
+
+(* x[...] op= scalar: op_assign! has arms for [Formula], [Formula, All], [Range], [Range, All] only; its
+   [1,1] (scalar index) arms compile the PLAIN assignment kernels *)
+Definition mech_op_scalar (fx : bool) (k : string) (r c : nat) (o : aop) (t : target) (e : sx) (d : list (option sx)) : mres :=
+  let n := r * c in
+  match t with
+  | TWhole => if op_kind_ok fx k then runm (lift_m k o) (with_src e (map Some (seq 0 n))) d else refused d
+  | T1 i =>
+      match single_mask i with
+      | Some b => runm m_set (with_src e (if b then map Some (seq 0 n) else [])) d
+      | None =>
+          match comp_of i with
+          | CS z => if fx then (if op_kind_ok fx k then runm (lift_m k o) (with_src e (dim_attempts n (CS z))) d
+                               else refused d)
+                    else runm m_set (with_src e (dim_attempts n (CS z))) d
+          | CU l => if op_kind_ok fx k then runm (lift_m k o) (with_src e (dim_attempts n (CU l))) d else refused d
+          | _ => refused d
+          end
+      end
+  | T2 i j =>
+      if negb (is_all j) then refused d else
+      match comp_of i with
+      | CS z => let ats := col_outer r (dim_attempts r (CS z)) (dim_attempts c CA) in
+                if fx then (if op_kind_ok fx k then runm (lift_m k o) (with_src e ats) d else refused d)
+                else runm m_set (with_src e ats) d
+      | CU l => if op_kind_ok fx k
+                then runm (lift_m k o)
+                       (with_src e (if andb (is_div o) (negb fx)
+                                    then (* div_assign_2d_vector_all: `for val in sink.iter_mut()` ignores the index *)
+                                         map Some (seq 0 n)
+                                    else col_outer r (dim_attempts r (CU l)) (dim_attempts c CA))) d
+                else refused d
+      | _ => refused d
+      end
+  end.
+
+(* vector sources (rows/columns of >= 2 elements) *)
+Definition same_orientation (x : mat sx) (col : bool) : bool :=
+  orb (andb (x_is_row x) (negb col)) (andb (x_is_col x) col).
+
+Definition mech_vec (fx : bool) (k : string) (x : mat sx) (o : aop) (t : target) (col : bool) (vs : list sx)
+           (d : list (option sx)) : mres :=
+  let n := mrows x * mcols x in
+  if Nat.ltb (List.length vs) 2 then None else
+  match t with
+  | TWhole =>
+      if is_set o then None
+      else if negb (op_kind_ok fx k) then refused d
+      else if same_orientation x col
+      then (* zip(sink, source): stops at the shorter one *)
+           runm (lift_m k o) (zip_src 0 (map Some (seq 0 (Nat.min n (List.length vs)))) vs) d
+      else refused d
+  | T1 i =>
+      match comp_of i with
+      | CU l =>
+          if is_set o then runm m_set (zip_src 0 (dim_attempts n (CU l)) vs) d
+          else if op_kind_ok fx k then runm (lift_m k o) (zip_src 0 (dim_attempts n (CU l)) vs) d
+          else refused d
+      | CB l =>
+          if andb (is_set o) (same_orientation x col)
+          then (* set_1d_range_vec_b: sink[i] = source[i] for the mask POSITION i *)
+               runm m_set (map (fun p => (posn n p, nth_error vs p)) (mask_pos 0 l)) d
+          else refused d
+      | _ => refused d
+      end
+  | T2 _ _ => None
+  end.
+
+Definition mech_step (fx : bool) (k : string) (x : mat sx) (s : stmt) : mres :=
   let r := mrows x in let c := mcols x in let d := map Some (mdata x) in
   match s with
   | SRead _ => None
   | SAsg o t src =>
-      if negb (String.eqb (src_kind src) k) then refused d else
-      match src with
-      | SSc _ e =>
-          match o with
-          | OSet =>
-              match t with
-              | TWhole => None
-              | _ => match mech_positions k r c t with
-                     | Some ps => runm m_set (with_src e ps) d
-                     | None => refused d
-                     end
-              end
-          | _ =>
-              if negb (is_numeric k) then None else
-              match t with
-              | TWhole => if op_kind_ok k then runm (lift_m k o) (with_src e (map Some (seq 0 (r * c)))) d
-                          else refused d
-              (* the [1,1] arms of op_assign! compile the PLAIN assignment kernels *)
-              | T1 (IS _) | T1 (IM [_]) | T2 (IS _) IAll =>
-                  match mech_positions k r c t with
-                  | Some ps => runm m_set (with_src e ps) d
-                  | None => refused d
-                  end
-              | T1 i =>
-                  match comp_of i with
-                  | CU l => if op_kind_ok k then runm (lift_m k o) (with_src e (dim_attempts (r * c) (CU l))) d
-                            else refused d
-                  | _ => refused d
-                  end
-              | T2 i IAll =>
-                  match comp_of i with
-                  | CU l => if op_kind_ok k
-                            then runm (lift_m k o)
-                                   (with_src e (match o with
-                                                | ODiv => (* div_assign_2d_vector_all: `for val in sink.iter_mut()` ignores the index *)
-                                                          map Some (seq 0 (r * c))
-                                                | _ => col_outer r (dim_attempts r (CU l)) (dim_attempts c CA)
-                                                end)) d
-                            else refused d
-                  | _ => refused d
-                  end
-              | T2 _ _ => refused d
-              end
-          end
-      | SVec _ col vs =>
-          if Nat.ltb (List.length vs) 2 then None else
-          match t with
-          | TWhole =>
-              match o with
-              | OSet => None
-              | _ =>
-                  if negb (is_numeric k) then None
-                  else if negb (op_kind_ok k) then refused d
-                  else if orb (andb (x_is_row x) (negb col)) (andb (x_is_col x) col)
-                  then (* zip(sink, source): stops at the shorter one *)
-                       runm (lift_m k o)
-                         (zip_src 0 (map Some (seq 0 (Nat.min (r * c) (List.length vs)))) vs) d
-                  else refused d
-              end
-          | T1 i =>
-              match comp_of i with
-              | CU l =>
-                  if is_set o then runm m_set (zip_src 0 (dim_attempts (r * c) (CU l)) vs) d
-                  else if negb (is_numeric k) then None
-                  else if op_kind_ok k then runm (lift_m k o) (zip_src 0 (dim_attempts (r * c) (CU l)) vs) d
-                  else refused d
-              | CB l =>
-                  if is_set o then
-                    if orb (andb (x_is_row x) (negb col)) (andb (x_is_col x) col)
-                    then (* set_1d_range_vec_b: sink[i] = source[i] for the mask POSITION i *)
-                         runm m_set
-                           (map (fun p => (posn (r * c) p, nth_error vs p)) (mask_pos 0 l)) d
-                    else refused d
-                  else if negb (is_numeric k) then None else refused d
-              | _ => if andb (negb (is_set o)) (negb (is_numeric k)) then None else refused d
-              end
-          | T2 _ _ => None
-          end
-      end
+      if negb (String.eqb (src_kind src) k) then refused d
+      else if andb (negb (is_set o)) (negb (is_numeric k)) then None
+      else match src with
+           | SSc _ e => if is_set o then mech_set_scalar fx k r c t e d else mech_op_scalar fx k r c o t e d
+           | SVec _ col vs => mech_vec fx k x o t col vs d
+           end
   end.
 
 (* ------------------------------------------------------------------ *)
@@ -707,42 +721,53 @@ Definition id_mask_vector : string := "mask-vector-source-positional".
 Definition id_div_all : string := "div-assign-rows-all-divides-every-element".
 Definition id_not_implemented : string := "form-not-implemented".
 
-Definition kf_structural (o : aop) (t : target) (src : source) (n : nat) : option string :=
+Definition kf_structural (fx : bool) (k : string) (o : aop) (t : target) (src : source) (n : nat) : option string :=
   match src with
   | SSc _ _ =>
-      match o, t with
-      | OSet, T2 i IAll => if is_bmask i then Some id_mask_rows_all else None
-      | OSet, T2 i j => if andb (is_uvec i) (is_bmask j) then Some id_rows_ignored else None
-      | OSet, _ => None
-      | _, T1 (IS _) => Some id_opassign_scalar
-      | _, T1 (IM [_]) => Some id_opassign_scalar
-      | _, T2 (IS _) IAll => Some id_opassign_scalar
-      | ODiv, T2 i IAll => if is_uvec i then Some id_div_all else None
-      | _, _ => None
-      end
+      if is_set o then
+        match t with
+        | T2 i j =>
+            if is_all j then (if andb (negb fx) (is_bmask i) then Some id_mask_rows_all else None)
+            else if andb (negb fx) (andb (mixed_ok k) (andb (is_uvec i) (is_bmask j))) then Some id_rows_ignored
+            else None
+        | _ => None
+        end
+      else
+        match t with
+        | TWhole => None
+        | T1 i =>
+            match single_mask i with
+            | Some _ => Some id_opassign_scalar
+            | None => if andb (negb fx) (is_scalar_ix i) then Some id_opassign_scalar else None
+            end
+        | T2 i j =>
+            if is_all j then
+              if andb (negb fx) (is_scalar_ix i) then Some id_opassign_scalar
+              else if andb (is_div o) (andb (negb fx) (is_uvec i)) then Some id_div_all
+              else None
+            else None
+        end
   | SVec _ _ vs =>
-      match o, t with
-      | OSet, T1 i => if is_bmask i then Some id_mask_vector else None
-      | OSet, _ => None
-      | _, TWhole => if Nat.ltb (List.length vs) n then Some id_whole_short else None
-      | _, _ => None
-      end
+      if is_set o then
+        match t with T1 i => if is_bmask i then Some id_mask_vector else None | _ => None end
+      else
+        match t with TWhole => if Nat.ltb (List.length vs) n then Some id_whole_short else None | _ => None end
   end.
 
 (* None: the faithful model of mech satisfies the property on this statement (or the property does not
    fix it).  Some id: the model deviates, in the way that finding id describes. *)
-Definition kf_class (k : string) (x : mat sx) (s : stmt) : option string :=
+Definition kf_class (fx : bool) (k : string) (x : mat sx) (s : stmt) : option string :=
   match s with
   | SRead _ => None
   | SAsg o t src =>
       match spec_step k x s with
       | NotFixed _ => None
       | sp =>
-          if agrees sp (mech_step k x s) (mdata x) then None
-          else match kf_structural o t src (mrows x * mcols x) with
+          if agrees sp (mech_step fx k x s) (mdata x) then None
+          else match kf_structural fx k o t src (mrows x * mcols x) with
                | Some id => Some id
                | None =>
-                   match mech_step k x s with
+                   match mech_step fx k x s with
                    | Some (false, d') =>
                        if andb (all_known d') (sx_pat_match d' (mdata x))
                        then (match sp with OkNew _ => Some id_not_implemented | _ => None end)
@@ -873,6 +898,22 @@ Definition obs_elems (o : obs) : option (string * list sx) :=
 
 Definition enc_x (k : string) (x : mat sx) (d : list sx) : sx := encode_kval (KM k (Mat (mrows x) (mcols x) d)).
 
+(* a known finding is reported only when the observation is exactly what a faithful model predicts:
+   the model of the tree as it is (fx = false), or the model with the proposed repairs (fx = true) *)
+Definition try_kf (k : string) (x : mat sx) (s : stmt) (o : stepobs) (fx : bool) : option (sverdict * option (mat sx)) :=
+  match kf_class fx k x s, mech_step fx k x s, resync o k x with
+  | Some id, Some (fin, pat), Some x' =>
+      if andb (if fin then is_val (so_res o) else is_err (so_res o)) (sx_pat_match pat (mdata x'))
+      then Some (VKf id, Some x') else None
+  | _, _, _ => None
+  end.
+
+Definition via_kf (k : string) (x : mat sx) (s : stmt) (o : stepobs) (exp : sx) (why : string) : sverdict * option (mat sx) :=
+  match try_kf k x s o false with
+  | Some r => r
+  | None => match try_kf k x s o true with Some r => r | None => (VBad why exp, None) end
+  end.
+
 Definition judge_step (k : string) (x : mat sx) (s : stmt) (o : stepobs) : sverdict * option (mat sx) :=
   let r := mrows x in let c := mcols x in
   match s with
@@ -889,25 +930,13 @@ Definition judge_step (k : string) (x : mat sx) (s : stmt) (o : stepobs) : sverd
                end
       end
   | SAsg _ _ _ =>
-      let via_kf (exp : sx) (why : string) :=
-        match kf_class k x s, mech_step k x s with
-        | Some id, Some (fin, pat) =>
-            match resync o k x with
-            | Some x' =>
-                if andb (if fin then is_val (so_res o) else is_err (so_res o)) (sx_pat_match pat (mdata x'))
-                then (VKf id, Some x')
-                else (VBad why exp, None)
-            | None => (VBad why exp, None)
-            end
-        | _, _ => (VBad why exp, None)
-        end in
       match spec_step k x s with
       | OkNew d =>
           if andb (is_val (so_res o)) (x_is o k r c d) then (VOk "value", Some (Mat r c d))
-          else via_kf (enc_x k x d) "wrong-update"
+          else via_kf k x s o (enc_x k x d) "wrong-update"
       | MustErr =>
           if andb (is_err (so_res o)) (x_is o k r c (mdata x)) then (VOk "error", Some x)
-          else via_kf (Lx [Ax "err-and-unchanged"; enc_x k x (mdata x)]) "error-not-atomic"
+          else via_kf k x s o (Lx [Ax "err-and-unchanged"; enc_x k x (mdata x)]) "error-not-atomic"
       | NotFixed w => (VAdv w, resync o k x)
       end
   end.
